@@ -108,6 +108,8 @@ Inductive wev : Type :=
 | EvLzma (u c : Z)                 (* write_lzma *)
 | EvUnc (u : Z)                    (* write_uncompressed(u) *)
 | EvCopy (start len : Z)           (* copy_uncompressed: buf[start .. start + len] *)
+| EvAbsorb (n : Z)                 (* ghost (not reported by the hook): LZMAEncoder::reset() turned the
+                                      n = read_ahead + 1 bytes the parser had read ahead into chunk content *)
 | EvNew                            (* start_independent_chunk: fresh encoder *)
 | EvEnd.                           (* finish completed *)
 
@@ -493,7 +495,8 @@ Section WithOracle.
              else
                do e1 <- enc_reset e;
                let u := unc_size e1 in
-               do tr1 <- unc_copies (Z.to_nat (u / COMPRESSED_SIZE_MAX + 2)) (l2_p s) (e_lz e1) u (EvUnc u :: tr0);
+               do tr1 <- unc_copies (Z.to_nat (u / COMPRESSED_SIZE_MAX + 2)) (l2_p s) (e_lz e1) u
+                                    (EvUnc u :: EvAbsorb (read_ahead e + 1) :: tr0);
                Ok (e1, u, tr1));
     let '(e2, u, tr2) := r in
     do pend <- ck_u32 (l2_pending s - u);
